@@ -400,3 +400,68 @@ def ob_resumed_run_stream(c: int, d0: int, d1: int, d2: int) -> bool:
                 return False                          # NOT_RUNNING for an invocation that was never announced RUNNING
             open_[key] = False
     return True
+
+
+# ----------------------------------------------------------------------------------------------- the stream does not depend on a logging switch
+@obligation(quick=150, thorough=300, partitions_quick=[f"d0 == {d}" for d in (1, 2)], partitions_thorough=[f"d0 == {d} and d1 == {e}" for d in (1, 2) for e in (1, 2, 3)],
+            what="Workflow(verbose=True) only PRINTS: the published StepStateChanged sequence of a run (3 jobs into a 2-worker step, so one "
+                 "invocation has to wait for capacity: PREPARING, later RUNNING) is the same as without it — in particular the PREPARING "
+                 "announcement of the waiting invocation is on the stream, before that invocation's RUNNING",
+            bounds={"jobs": 3, "workers": 2, "job durations": "1..2 (thorough 3) each: all three are in the run at the same time"})
+def ob_verbose_does_not_change_the_stream(d0: int, d1: int, d2: int) -> bool:
+    """
+    pre: 1 <= d0 <= 2 and 1 <= d1 <= DV35 and 1 <= d2 <= DV35
+    post: _
+    """
+    import asyncio
+    import contextlib
+    import io
+
+    import workflows.plugins.basic as basic_mod
+    import workflows.runtime.types.step_function as sf_mod
+    from vlib.h_idle import FakeTime
+    from vlib.miniloop import MiniLoop
+
+    d0, d1, d2 = conc(d0, 1, 2), conc(d1, 1, 3), conc(d2, 1, 3)
+
+    def one(verbose: bool):
+        loop = MiniLoop()
+        seen: list = []
+        res: list = []
+
+        async def main():
+            w = _ResumeW(timeout=None, runtime=basic_mod.BasicRuntime(), verbose=verbose)
+            w.life, w.dur = [1], [d0, d1, d2]
+            h = w.run(run_id="r")
+
+            async def watch():
+                async for e in h.stream_events(expose_internal=True):
+                    seen.append(e)
+
+            wt = asyncio.ensure_future(watch())
+            res.append(await asyncio.wait_for(h, timeout=30))
+            await wt
+
+        saved = (basic_mod.time, sf_mod.time)
+        basic_mod.time = sf_mod.time = FakeTime(loop)
+        try:
+            with contextlib.redirect_stdout(io.StringIO()):
+                loop.run_until_complete(main())
+        finally:
+            basic_mod.time, sf_mod.time = saved
+        return res, [(e.name, str(e.step_state), e.worker_id, e.input_event_name) for e in seen if isinstance(e, StepStateChanged)]
+
+    res_q, quiet = one(False)
+    res_v, loud = one(True)
+    if res_q != [[0, 1, 2]] or res_v != [[0, 1, 2]]:
+        return False
+    prep = [x for x in quiet if x[0] == "work" and "PREPARING" in x[1].upper()]
+    import os
+    import sys
+
+    if os.environ.get("VERIF_DEBUG"):
+        sys.stderr.write(f"res {res_q} {res_v}\nquiet {quiet}\nloud {loud}\n")
+    return quiet == loud and len(prep) == 1
+
+
+DV35 = B(2, 3)
